@@ -68,4 +68,12 @@ __CPROVER_ensures(O(RC(fid)) > 0 ==> (__CPROVER_return_value == 0 && RC(fid) == 
 __CPROVER_ensures(O(RC(fid)) > 0 ==> (g_ndisable == (O(RC(fid)) == 1 && TY(fid) == F_TYPE_DYNAMIC)))
 __CPROVER_ensures(g_ndisable == 1 ==> g_disable_fid == fid)
 ;
+/* A capability that the object switched on for itself (top level: enabled with no reference held on it) must survive a dependent that takes a
+   reference and releases it again: deleting a bias must not switch off a variable that was active before the bias existed. */
+int k_toplevel_survives(int fid, int *st)
+__CPROVER_requires(0 <= fid && fid < NF && __CPROVER_is_fresh(st, 4 * NF * sizeof(int)) && NOCALLS && STATES_OK && EN(fid) == 1 && RC(fid) == 0 && TY(fid) == F_TYPE_DYNAMIC)
+__CPROVER_assigns(__CPROVER_object_whole(e_d), __CPROVER_object_whole(st), g_ndisable, g_disable_fid, g_errors, g_error_bits)
+__CPROVER_ensures(__CPROVER_return_value == 0 && g_errors == O(g_errors))
+__CPROVER_ensures(g_ndisable == 0)
+;
 #endif
